@@ -52,3 +52,9 @@ OBLIGATIONS += [
         desc="single-call Index encoding: BUF_ERROR with nothing written when space < lzma_index_size(), otherwise exactly that many bytes forming a valid Index",
         bounds_q="0-1 records (quick) / 0-2 (thorough)"),
 ]
+OBLIGATIONS += [
+    Obligation(name="index_crc_tail_sliced", src="idxenc.c", func="harness_index_crc_tail", defs=["KREC=1"], unwind=10, units=IDXU, flags=FL,
+        functions=["index_encode"], stubs=["lzma_crc32 = additive chaining hash; index accessors = model (not reached in these states)"],
+        desc="Index encoder from ANY running-CRC state at the Index Padding, with the output cut at every possible point (inside the padding, inside the CRC32 field): the CRC32 field equals the CRC of all preceding bytes with each byte counted exactly once",
+        bounds_q="all running CRC values, 0-3 padding bytes, every cut point"),
+]
